@@ -250,14 +250,11 @@ func c16ReportDiffs(ctx *Ctx, idx int, cs ioCase, ss ast.SelectionSet, want, got
 	sort.Strings(classes)
 	for _, c := range classes {
 		ds := byClass[c]
-		if c != "" {
-			ctx.Rep.Count("known:" + c)
-		}
 		show := ds
 		if len(show) > 4 {
 			show = show[:4]
 		}
-		ctx.Rep.Fail(hx.Failure{Kind: "property-fails", Class: c, Index: idx, Case: cs,
+		failLimited(ctx, &c16Lim, hx.Failure{Kind: "property-fails", Class: c, Index: idx, Case: cs,
 			Detail: fmt.Sprintf("%s: the gateway's answer differs from the specification at %d place(s), first at %s", what, len(ds), strings.Join(ds[0].Path, ".")),
 			Impl:   map[string]interface{}{"differences": show}})
 	}
@@ -302,8 +299,7 @@ func c16Check(ctx *Ctx, idx int, env *c16Env, cs ioCase) {
 	if len(ans.Errors) > 0 || ans.Data == nil {
 		if c := env.customRootClass(rawBody); c != "" {
 			// documented: the planner looks the root type up by the literal name
-			ctx.Rep.Count("known:" + c)
-			ctx.Rep.Fail(hx.Failure{Kind: "property-fails", Class: c, Detail: "valid introspection operation refused: " + strings.TrimSpace(rawBody), Case: cs, Index: idx})
+			failLimited(ctx, &c16Lim, hx.Failure{Kind: "property-fails", Class: c, Detail: "valid introspection operation refused: " + strings.TrimSpace(rawBody), Case: cs, Index: idx})
 			gatewayDown = true
 		} else {
 			ctx.Rep.Fail(hx.Failure{Kind: "property-fails", Detail: "valid introspection operation answered with errors or without data: " + rawBody, Case: cs, Index: idx})
@@ -392,6 +388,8 @@ func firstN(ds []jdiff, n int) []jdiff {
 // ---------------------------------------------------------------------------------------------
 // the standard query: reported ⇔ exists (Go oracle), and cross-validation of the Lean spec
 
+var c16Lim = c15Limiter{n: map[string]int{}}
+
 var pebblesStdQuery string
 
 type captureQ struct{ got *string }
@@ -429,11 +427,7 @@ func c16Std(ctx *Ctx, idx int, env *c16Env) {
 		raw := expandSpreads(op.SelectionSet)
 		ans, rawBody := env.post(q, nil)
 		if len(ans.Errors) > 0 || ans.Data == nil {
-			c := env.customRootClass(rawBody)
-			if c != "" {
-				ctx.Rep.Count("known:" + c)
-			}
-			ctx.Rep.Fail(hx.Failure{Kind: "property-fails", Class: c, Detail: "standard introspection query answered with errors: " + strings.TrimSpace(rawBody), Case: cs, Index: idx})
+			failLimited(ctx, &c16Lim, hx.Failure{Kind: "property-fails", Class: env.customRootClass(rawBody), Detail: "standard introspection query answered with errors: " + strings.TrimSpace(rawBody), Case: cs, Index: idx})
 			return
 		}
 		got := normJSON(ans.Data)
@@ -493,8 +487,7 @@ func c16TypeVsTypes(ctx *Ctx, idx int, env *c16Env, cs ioCase) {
 	ans, rawBody := env.post(cs.Query, cs.Vars)
 	if len(ans.Errors) > 0 || ans.Data == nil {
 		if c := env.customRootClass(rawBody); c != "" {
-			ctx.Rep.Count("known:" + c)
-			ctx.Rep.Fail(hx.Failure{Kind: "property-fails", Class: c, Detail: "valid introspection operation refused: " + strings.TrimSpace(rawBody), Case: cs, Index: idx})
+			failLimited(ctx, &c16Lim, hx.Failure{Kind: "property-fails", Class: c, Detail: "valid introspection operation refused: " + strings.TrimSpace(rawBody), Case: cs, Index: idx})
 			return
 		}
 		ctx.Rep.Fail(hx.Failure{Kind: "harness-error", Detail: "type-vs-types operation rejected: " + rawBody, Case: cs, Index: idx})
